@@ -9,6 +9,18 @@
 // name builds a fresh Packer, as a restarted channel loop does.  At the end of every plan all live
 // Packers are cleared (events with final=true), so the "counter returns to zero" clause is always tested.
 //
+// The callback owns the packs it is handed.  A step's "mut" says what it does to them before it returns (also when it
+// returns the injected error), in place, as the production callback does (cdc_impl.go replicateMsgsFunc ->
+// ChannelWriter.HandleReplicateMessage, channel_writer.go:168-260: Base.ReplicateInfo stamped on every message, db and
+// collection names of insert / delete messages rewritten by the name mapping):
+//
+//	same   = read-only callback
+//	grow   = every message gets Base.ReplicateInfo{IsReplicate, ReplicateID}, inserts a db name and a longer collection name
+//	shrink = Base.ReplicateInfo removed, inserts get a one-letter collection name (mapping to a shorter name)
+//
+// The byte delta of msg.Size() over the packs of a call is measured and logged ("delta"); a mutation that had to change
+// the size of a non-empty pack and did not is a machinery failure (event op=machinery), never a verdict.
+//
 // Size classes are concrete messages whose msg.Size() is measured, not assumed:
 //
 //	zero  = pack without messages                       (0 bytes)
@@ -88,6 +100,38 @@ func findPad(target int) (int, int) {
 	return 0, 0
 }
 
+const replicateID = "verif-replicate-id"
+
+// mutate edits the messages of a pack in place (see the header); a pack without messages has nothing to edit
+func mutate(pack *msgstream.MsgPack, mut string) {
+	for _, m := range pack.Msgs {
+		hb, ok := m.(interface{ GetBase() *commonpb.MsgBase })
+		if !ok || hb.GetBase() == nil {
+			continue
+		}
+		switch mut {
+		case "grow":
+			info := hb.GetBase().ReplicateInfo
+			if info == nil {
+				info = &commonpb.ReplicateInfo{}
+				hb.GetBase().ReplicateInfo = info
+			}
+			info.IsReplicate = true
+			info.ReplicateID = replicateID
+			if ins, ok := m.(*msgstream.InsertMsg); ok {
+				ins.DbName = "mapped_database"
+				ins.CollectionName = "mapped_" + ins.CollectionName
+			}
+		case "shrink":
+			hb.GetBase().ReplicateInfo = nil
+			if ins, ok := m.(*msgstream.InsertMsg); ok {
+				ins.DbName = ""
+				ins.CollectionName = "m"
+			}
+		}
+	}
+}
+
 type batcher struct {
 	pk  *msgpacker.Packer
 	ids map[*api.ReplicateMsg]int
@@ -131,9 +175,14 @@ func main() {
 			return b
 		}
 		var evs []hx.Event
-		call := func(ev hx.Event, b *batcher, fail bool, f func(cb func([]*api.ReplicateMsg) error) error) {
+		call := func(ev hx.Event, b *batcher, fail bool, mut string, f func(cb func([]*api.ReplicateMsg) error) error) {
+			if mut == "" {
+				mut = "same" // plans written before callbacks could edit the packs
+			}
 			calls := [][]int{}
 			inside := []int{}
+			delta := 0
+			ineffective := false
 			cb := func(msgs []*api.ReplicateMsg) error {
 				ids := make([]int, 0, len(msgs))
 				for _, m := range msgs {
@@ -145,6 +194,15 @@ func main() {
 				}
 				calls = append(calls, ids)
 				inside = append(inside, msgpacker.VerifMemoryCurrent())
+				for _, m := range msgs {
+					before := packSize(m.MsgPack)
+					mutate(m.MsgPack, mut)
+					d := packSize(m.MsgPack) - before
+					delta += d
+					if before > 0 && ((mut == "grow" && d <= 0) || (mut == "shrink" && d >= 0) || (mut == "same" && d != 0)) {
+						ineffective = true
+					}
+				}
 				if fail {
 					return errInjected
 				}
@@ -154,14 +212,18 @@ func main() {
 			ev["cbfail"], ev["calls"], ev["err"] = fail, calls, err != nil
 			ev["errIsCb"] = err != nil && errors.Is(err, errInjected)
 			ev["globalInCb"] = inside
+			ev["mut"], ev["delta"] = mut, delta
 			ev["global"] = msgpacker.VerifMemoryCurrent()
 			ev["max"] = msgpacker.VerifMemoryMax()
 			evs = append(evs, ev)
+			if ineffective {
+				evs = append(evs, hx.Event{"op": "machinery", "what": "callback mutation '" + mut + "' did not change the measured size as intended"})
+			}
 		}
-		clear := func(name string, fail, final bool) {
+		clear := func(name string, fail bool, mut string, final bool) {
 			b := get(name) // cdc_impl.go:1101: NewPacker precedes the deferred ClearMsgs even if nothing was received
 			ev := hx.Event{"op": "clear", "p": name, "id": -1, "cls": "", "size": 0, "aged": false, "final": final}
-			call(ev, b, fail, func(cb func([]*api.ReplicateMsg) error) error { return b.pk.ClearMsgs(cb) })
+			call(ev, b, fail, mut, func(cb func([]*api.ReplicateMsg) error) error { return b.pk.ClearMsgs(cb) })
 			delete(bats, name)
 		}
 		for _, st := range p.Steps {
@@ -178,9 +240,9 @@ func main() {
 					time.Sleep(aging) // lets the TimerChecker expire (timerMs = 1); the contract does not depend on it
 				}
 				ev := hx.Event{"op": "recv", "p": name, "id": seq[name], "cls": cls, "size": packSize(pack), "aged": aged, "final": false}
-				call(ev, b, hx.B(st, "fail"), func(cb func([]*api.ReplicateMsg) error) error { return b.pk.Receive(msg, cb) })
+				call(ev, b, hx.B(st, "fail"), hx.S(st, "mut"), func(cb func([]*api.ReplicateMsg) error) error { return b.pk.Receive(msg, cb) })
 			case "clear":
-				clear(name, hx.B(st, "fail"), false)
+				clear(name, hx.B(st, "fail"), hx.S(st, "mut"), false)
 			default:
 				fmt.Fprintln(os.Stderr, "unknown op", hx.S(st, "op"))
 				os.Exit(3)
@@ -192,7 +254,7 @@ func main() {
 		}
 		sort.Strings(names)
 		for _, n := range names {
-			clear(n, false, true)
+			clear(n, false, "same", true)
 		}
 		return evs
 	})
